@@ -242,18 +242,23 @@ Section Compose.
   Lemma cleanup_verdict earlier eph c st res :
     cleanup_and_finish R A fuel false earlier eph c st = Ok res ->
     exists sc stc, exec_phase R A fuel PhCleanup (tc_cleanup c) st = Ok (sc, stc) /\
-                   rs_verdict res = match sc with StPass => earlier | _ => sc end.
+                   rs_verdict res = match sc with StPass => earlier | _ => sc end /\
+                   rs_phase res = match sc with StPass => eph | _ => phase_code PhCleanup end.
   Proof.
     unfold cleanup_and_finish. destruct (exec_phase R A fuel PhCleanup (tc_cleanup c) st) as [[sc stc]|e]; [|discriminate].
-    intros H. exists sc, stc. split; [reflexivity|]. destruct sc; injection H as <-; reflexivity.
+    intros H. exists sc, stc. split; [reflexivity|]. destruct sc; injection H as <-; split; reflexivity.
   Qed.
 
   Lemma cleanup_swallowed_verdict earlier eph c st res :
-    cleanup_and_finish R A fuel true earlier eph c st = Ok res -> rs_verdict res = earlier.
+    cleanup_and_finish R A fuel true earlier eph c st = Ok res -> rs_verdict res = earlier /\ rs_phase res = eph.
   Proof.
     unfold cleanup_and_finish. destruct (exec_phase R A fuel PhCleanup (tc_cleanup c) st) as [[sc stc]|e]; [|discriminate].
-    intros H. destruct sc; injection H as <-; reflexivity.
+    intros H. destruct sc; injection H as <-; split; reflexivity.
   Qed.
+
+  (** C10's phase codes ([Prog.phase_code]) for the executor's phases *)
+  Definition code_of_phase (p : Exec.phase) : N :=
+    match p with Setup => 1 | Exec.Act => 2 | BeforeAssert => 3 | Assert => 4 | Cleanup => 5 | Conf => 0 end%N.
 
   Ltac finish_leaf Hmode :=
     match goal with
@@ -266,11 +271,12 @@ Section Compose.
     let r := snd (full_execute (lower R A fuel mode cwd tbl0 c oracle)) in
     fr_status r = translate_status mode (option_map f_status (fr_failure r)) /\
     match fr_failure r with
-    | None => rs_verdict res = StPass
+    | None => rs_verdict res = StPass /\ rs_phase res = 0%N
     | Some f =>
         rs_verdict res <> StPass /\
         f_step f = (match f_phase f with Exec.Act => SExecute | _ => SMain end) /\
-        (f_phase f <> BeforeAssert -> kind_of (rs_verdict res) = f_status f)
+        kind_of (rs_verdict res) = f_status f /\
+        rs_phase res = code_of_phase (f_phase f)
     end.
   Proof.
     intros Hrun Hmode. cbn zeta. unfold lower, run_case_with in *.
@@ -281,33 +287,33 @@ Section Compose.
       cbn; (split; [reflexivity|]); repeat split; try discriminate; auto;
       try (intros Hx; contradiction Hx; reflexivity).
     destruct s1.
-    2,3: (destruct (cleanup_verdict _ _ _ _ _ Hrun) as (sc & stc & Ec & Hv);
+    2,3: (destruct (cleanup_verdict _ _ _ _ _ Hrun) as (sc & stc & Ec & Hv & Hph);
           pose proof (phase_behs_ffail R A fuel Cleanup (Some PSetup) PhCleanup _ _ 0 _ _ Ec) as Fc;
           fold (mains Cleanup (Some PSetup) (phase_behs R A fuel PhCleanup (tc_cleanup c) st1)) in Fc;
-          finish_leaf Hmode; rewrite F1, Fc, Hv; destruct sc; leaf_tail).
+          finish_leaf Hmode; rewrite F1, Fc, Hv, Hph; destruct sc; leaf_tail).
     (* setup passes: act *)
     destruct (exec_act R A fuel (tc_act c) st1) as [[s2 st2]|e] eqn:E2; [|discriminate].
     destruct s2.
-    2,3: (destruct (cleanup_verdict _ _ _ _ _ Hrun) as (sc & stc & Ec & Hv);
+    2,3: (destruct (cleanup_verdict _ _ _ _ _ Hrun) as (sc & stc & Ec & Hv & Hph);
           pose proof (phase_behs_ffail R A fuel Cleanup (Some PAct) PhCleanup _ _ 0 _ _ Ec) as Fc;
           fold (mains Cleanup (Some PAct) (phase_behs R A fuel PhCleanup (tc_cleanup c) st2)) in Fc;
-          finish_leaf Hmode; rewrite F1, Fc, Hv; cbn [beh_of_status Exec.outcome option_map]; destruct sc; leaf_tail).
+          finish_leaf Hmode; rewrite F1, Fc, Hv, Hph; cbn [beh_of_status Exec.outcome option_map]; destruct sc; leaf_tail).
     (* act passes: before-assert *)
     destruct (exec_phase R A fuel PhBefore (tc_before c) st2) as [[s3 st3]|e] eqn:E3; [|discriminate].
     pose proof (phase_behs_ffail R A fuel BeforeAssert None PhBefore _ _ 0 _ _ E3) as F3.
     fold (mains BeforeAssert None (phase_behs R A fuel PhBefore (tc_before c) st2)) in F3.
     destruct s3.
-    2,3: (pose proof (cleanup_swallowed_verdict _ _ _ _ _ Hrun) as Hv;
-          finish_leaf Hmode; rewrite F1, F3, Hv; cbn [beh_of_status Exec.outcome option_map]; leaf_tail).
+    2,3: (destruct (cleanup_swallowed_verdict _ _ _ _ _ Hrun) as [Hv Hph];
+          finish_leaf Hmode; rewrite F1, F3, Hv, Hph; cbn [beh_of_status Exec.outcome option_map]; leaf_tail).
     (* before-assert passes: assert, then cleanup *)
     destruct (exec_phase R A fuel PhAssert (tc_assert c) st3) as [[s4 st4]|e] eqn:E4; [|discriminate].
     pose proof (phase_behs_ffail R A fuel Assert None PhAssert _ _ 0 _ _ E4) as F4.
     fold (mains Assert None (phase_behs R A fuel PhAssert (tc_assert c) st3)) in F4.
     destruct s4;
-      (destruct (cleanup_verdict _ _ _ _ _ Hrun) as (sc & stc & Ec & Hv);
+      (destruct (cleanup_verdict _ _ _ _ _ Hrun) as (sc & stc & Ec & Hv & Hph);
        pose proof (phase_behs_ffail R A fuel Cleanup (Some PAssert) PhCleanup _ _ 0 _ _ Ec) as Fc;
        fold (mains Cleanup (Some PAssert) (phase_behs R A fuel PhCleanup (tc_cleanup c) st4)) in Fc;
-       finish_leaf Hmode; rewrite F1, F3, F4, Fc, Hv; cbn [beh_of_status Exec.outcome option_map];
+       finish_leaf Hmode; rewrite F1, F3, F4, Fc, Hv, Hph; cbn [beh_of_status Exec.outcome option_map];
        destruct sc; leaf_tail).
   Qed.
 End Compose.
@@ -316,14 +322,15 @@ End Compose.
 Corollary verdict_table R A fuel mode cwd tbl0 c oracle res :
   run_case_with R A fuel cwd tbl0 c oracle = Ok res -> mode <> TSkip ->
   let r := snd (full_execute (lower R A fuel mode cwd tbl0 c oracle)) in
-  (fr_failure r = None -> rs_verdict res = StPass /\ fr_status r = translate_status mode None) /\
-  (forall f, fr_failure r = Some f -> f_phase f <> BeforeAssert ->
-     fr_status r = translate_status mode (Some (kind_of (rs_verdict res)))).
+  (fr_failure r = None -> rs_verdict res = StPass /\ rs_phase res = 0%N /\ fr_status r = translate_status mode None) /\
+  (forall f, fr_failure r = Some f ->
+     fr_status r = translate_status mode (Some (kind_of (rs_verdict res))) /\
+     rs_phase res = code_of_phase (f_phase f)).
 Proof.
   intros Hrun Hmode. cbn zeta. destruct (verdict_through_executor R A fuel mode cwd tbl0 c oracle res Hrun Hmode) as [Hs Hf].
   cbn zeta in Hs, Hf. split.
-  - intros E. rewrite E in *. split; [exact Hf|exact Hs].
-  - intros f E Hne. rewrite E in *. destruct Hf as (_ & _ & Hk). rewrite Hs, (Hk Hne). reflexivity.
+  - intros E. rewrite E in *. destruct Hf as [H1 H2]. split; [exact H1|]. split; [exact H2|exact Hs].
+  - intros f E. rewrite E in *. destruct Hf as (_ & _ & Hk & Hp). rewrite Hs, Hk. split; [reflexivity|exact Hp].
 Qed.
 
 (** The two building blocks of C10's table, as behaviours of Exec: a program run as an instruction
@@ -384,3 +391,19 @@ Proof.
   eexists _, (Failure BeforeAssert SMain 0 FFail). split; [vm_compute; reflexivity|].
   split; [vm_compute; reflexivity|]. cbn. repeat split.
 Qed.
+
+(** Location, on concrete cases with real instruction sets ([run] exiting 1 = HARD_ERROR everywhere):
+    a before-assert failure followed by a failing cleanup is reported in before-assert by both models;
+    a setup (act / assert) failure followed by a failing cleanup is reported in cleanup by both. *)
+Definition case_ba_cl : tcase := TC [] ActNull [IRun false prog_p] [] [IRun false prog_p].
+Definition case_su_cl : tcase := TC [IRun false prog_p] ActNull [] [] [IRun false prog_p].
+Definition case_as_cl : tcase := TC [] ActNull [] [IRun false prog_p] [IRun false prog_p].
+Example location_examples :
+  let o := [Out 1 [] []; Out 1 [] []] in
+  let ph c := option_map rs_phase (match run_case 10 [47%N] [] c o with Ok r => Some r | Err _ => None end) in
+  let fx c := option_map (fun f => (f_phase f, f_status f))
+                (fr_failure (snd (full_execute (lower resolve_tbl assemble_in_order 10 TPass [47%N] [] c o)))) in
+  ph case_ba_cl = Some 3%N /\ fx case_ba_cl = Some (BeforeAssert, FHard) /\
+  ph case_su_cl = Some 5%N /\ fx case_su_cl = Some (Cleanup, FHard) /\
+  ph case_as_cl = Some 5%N /\ fx case_as_cl = Some (Cleanup, FHard).
+Proof. vm_compute. repeat split. Qed.
